@@ -97,6 +97,10 @@ pub struct Slot {
     pub drops: u32,
     pub observations: u32,
     pub default_minted: bool,
+    /// native runs only (RAW_MEMORY off): address of the heap cell, so that a garbage `Own`
+    /// (bytes that were never a live element) is recognised before its pointer is used.
+    /// Left 0 under Miri / memcheck, where remembering addresses would hide leaks.
+    pub addr: usize,
 }
 
 #[derive(Default)]
@@ -157,7 +161,12 @@ impl Own {
             l.events.push(Ev::Create(id));
             id
         });
-        Own { id, cell: ManuallyDrop::new(Box::new(MAGIC + id as u64)) }
+        let o = Own { id, cell: ManuallyDrop::new(Box::new(MAGIC + id as u64)) };
+        if !RAW_MEMORY.load(Ordering::Relaxed) {
+            let a = o.addr();
+            LEDGER.with(|l| l.borrow_mut().slots[id as usize].addr = a);
+        }
+        o
     }
     /// identity without counting as an observation by the code under test
     pub fn id(&self) -> u32 {
@@ -171,7 +180,12 @@ impl Own {
             let mut l = l.borrow_mut();
             let id = self.id;
             l.events.push(Ev::Observe(id));
+            let addr = &**self.cell as *const u64 as usize;
             match l.slots.get_mut(id as usize) {
+                Some(s) if s.addr != 0 && s.addr != addr => {
+                    l.errors.push(format!("observe of a garbage element (id field {} but its heap cell is not the one the ledger created)", id));
+                    false
+                }
                 Some(s) => {
                     s.observations += 1;
                     if !s.live {
@@ -214,7 +228,12 @@ impl Drop for Own {
             let mut l = l.borrow_mut();
             let id = self.id;
             l.events.push(Ev::Drop(id));
+            let addr = &**self.cell as *const u64 as usize;
             match l.slots.get_mut(id as usize) {
+                Some(s) if s.addr != 0 && s.addr != addr => {
+                    l.errors.push(format!("drop of a garbage element (id field {} but its heap cell is not the one the ledger created)", id));
+                    false
+                }
                 Some(s) => {
                     s.drops += 1;
                     if !s.live {
